@@ -284,9 +284,12 @@ class C24(Check):
             r = res[idx]
             self.cls(name)
             if is_exc(r):
+                if r["exc"] == "VerifAssertFailure" and fn is not None:
+                    # the input was constructed inside this routine's precondition: an internal assertion is not an answer
+                    raise Violation("%s: a library assertion failed on an input inside the routine's precondition (%s); input %s"
+                                    % (name, r.get("what", ""), ctx), {"routine": name, "result": r})
                 if r["exc"] == "VerifAssertFailure":
-                    # reported by C03 only (GUIDE); counted separately when it happens inside a routine's precondition
-                    self.skip("assert_seen" if fn is None else "assert_seen_in_domain")
+                    self.skip("assert_seen")
                 elif r["exc"] == "Dep":
                     self.skip("dep")
                 else:
@@ -624,15 +627,15 @@ class C24(Check):
                             return "pivot of row %d is not normalised in %s" % (i, fmt(got))
                 return pl_ok(r)
             return f
-        if prefix:
-            add("pivoted_gaussian_elimination", obs(["dm_eliminate", "pivoted_gaussian", R(reg)]), ge(True))
-            add("pivoted_fraction_free_gaussian_elimination", obs(["dm_eliminate", "pivoted_fraction_free_gaussian", R(reg)]), ge(False))
-        else:
+        if not prefix and self.tag_active("pivoted_gaussian_elimination_skipped_column"):
             # known finding (row `index` vs column counter `i` after a pivot-free column): excluded by construction
             self.skip("known:pivoted_gaussian_elimination_skipped_column", 2)
+        else:
+            add("pivoted_gaussian_elimination", obs(["dm_eliminate", "pivoted_gaussian", R(reg)]), ge(True))
+            add("pivoted_fraction_free_gaussian_elimination", obs(["dm_eliminate", "pivoted_fraction_free_gaussian", R(reg)]), ge(False))
 
         # un-pivoted fraction-free eliminations: judged when all leading minors are non-zero
-        if c_ > r_:
+        if c_ > r_ and self.tag_active("fraction_free_gauss_jordan_elimination_wide"):
             # known finding: fraction_free_gauss_jordan_elimination reads B[i][i] for i >= rows (heap overflow) on wide matrices
             self.skip("known:fraction_free_gauss_jordan_elimination_wide")
         else:
@@ -843,9 +846,14 @@ class C24(Check):
         same_c = L.mat_eq(A, C)
         plan.append(("eq_shape", len(stmts), lambda r: None if r == [same_c, not same_c] else "A==C returned %s" % r))
         stmts.append(["mat_eq", rA, rC])
-        # submatrix with steps: exercised, not judged (see report)
-        plan.append(("submatrix_steps", len(stmts), None))
-        stmts.append(["mat_obs", ["dm_submatrix", rA, r0, c0, r1, c1, 1 + ix[4] % 3, 1 + ix[5] % 3]])
+        # submatrix with steps through the C wrapper (which allocates the result itself)
+        rs_, cs_ = 1 + ix[4] % 3, 1 + ix[5] % 3
+        if (rs_ > 1 or cs_ > 1) and self.tag_active("submatrix_dense_step_holes"):
+            # known finding: only every step-th position of an un-stepped-size result is assigned, the rest stay null
+            self.skip("known:submatrix_dense_step_holes")
+        else:
+            add("submatrix_steps", ["dm_submatrix_c", rA, r0, c0, r1, c1, rs_, cs_],
+                E([[A[i][j] for j in range(c0, c1 + 1, cs_)] for i in range(r0, r1 + 1, rs_)]))
         self.go(stmts, plan, ctx)
         if max(r_, c_) >= 3 and not L.is_real_mat(A):
             self.nontriv(("ops", fmt(A)))
@@ -882,6 +890,13 @@ class C24(Check):
         add("cross", ["dm_cross", R(2), R(3)], E(vecm(cr, o[2])))
         add("eye", ["dm_eye", r_, c_, k], E(L.eye(r_, c_, k)))
         add("eye0", ["dm_eye", r_, c_, 0], E(L.eye(r_, c_, 0)))
+        if self.tag_active("eye_offset_outside_matrix"):
+            # known finding: eye() does not return after zeros(A) for an offset outside the matrix
+            self.skip("known:eye_offset_outside_matrix", 2)
+        else:
+            # only the first outside offsets are used: beyond them a defective tree allocates ~32 GB
+            add("eye_offset_cols", ["dm_eye", r_, c_, c_], E(L.zeros(r_, c_)))
+            add("eye_offset_minus_rows", ["dm_eye", r_, c_, -r_], E(L.zeros(r_, c_)))
         D = L.zeros(r_, c_)
         for i in range(r_):
             j = i + k
@@ -955,10 +970,14 @@ class C24(Check):
         if square:
             # known finding: DenseMatrix::is_lower() tests the entries BELOW the diagonal (true for upper triangular
             # matrices) and is_upper() the entries above it; test_matrix.cpp pins this.  The pinned meaning is what is
-            # compared here; the conventional meaning is not demanded.
-            self.skip("known:is_lower_is_upper_names_swapped")
-            boolean("is_lower", L.is_upper(A))
-            boolean("is_upper", L.is_lower(A))
+            # compared while the finding is active; otherwise the conventional meaning is demanded.
+            if self.tag_active("is_lower_is_upper_names_swapped"):
+                self.skip("known:is_lower_is_upper_names_swapped")
+                boolean("is_lower", L.is_upper(A))
+                boolean("is_upper", L.is_lower(A))
+            else:
+                boolean("is_lower", L.is_lower(A))
+                boolean("is_upper", L.is_upper(A))
         # diagonal dominance (exact when every modulus is rational, else decided at 50 digits with a margin)
         weak = strict = None
         if square:
